@@ -183,7 +183,14 @@ def run(ctx):
     specs = ctx.specs(util.corpus(ctx.prop) + gen.gen_many(ctx.seed, n, CFG, 'c09_') + util.orderbook_tail_specs(ctx.seed, 10 if ctx.tier == 'quick' else 60, 'c09ob_', split=False)
                       # structured assets with an own life time wrapping assets with life times of their own
                       + gen.gen_many(ctx.seed, n // 3, dict(CFG, p_struct_window=1.0, p_window_inner=0.8, kinds={'StructuredAsset': 4, 'SimpleContract': 1}), 'c09st_')
-                      + linked_specs(ctx.seed, 16 if ctx.tier == 'quick' else 80, 'c09li_'))
+                      + linked_specs(ctx.seed, 16 if ctx.tier == 'quick' else 80, 'c09li_')
+                      # assets that have no step in the horizon (expired / not yet started) next to assets with restriction rows
+                      + gen.gen_many(ctx.seed, n // 3, dict(CFG, p_window=0.7, window_kinds=['before', 'after', 'inside', 'before'], p_coarse=0.0, p_periodic=0.0, n_assets=(3, 5),
+                                                            kinds={'Storage': 3, 'Contract': 3, 'SimpleContract': 1, 'ExtendedTransport': 1}), 'c09dead_')
+                      # order books with orders outside the horizon next to assets with binary variables
+                      + gen.gen_many(ctx.seed, n // 3, dict(CFG, p_coarse=0.0, p_periodic=0.0, p_no_simult=0.9, p_full_exec=0.5, n_assets=(2, 4), T=(4, 7),
+                                                            order_kinds=['outside', 'inside', 'inside', 'outside'],
+                                                            kinds={'OrderBook': 3, 'Storage': 4, 'SimpleContract': 1}), 'c09mip_'))
     base = [sp for sp in specs if not sp['id'].endswith(('+ren', '+perm'))]
     rens = [renamed(sp) for sp in base]
     perms = [permuted(sp) for sp in base]
